@@ -18,7 +18,9 @@ PROP = dict(
                 'only to construct inputs; 2^128 pairs are sampled, not '
                 'enumerated'),
     rule=('case = (arity 1..4, entry point Put64 | Put64FixedWidth at the '
-          'canonical width | Put64(v-d)+AddGrow(+d) | Put64(v+d)+AddGrow(-d) '
+          'canonical width | LenQuick + Put64FixedWidthQuick_ (the '
+          'key-building macros) | Put64(v-d)+AddGrow(+d) | '
+          'Put64(v+d)+AddGrow(-d) '
           'compared with a directly written key, per position a pair kind '
           'and its values); '
           'non-trivial = some position has a != b and (their encoded lengths '
@@ -28,7 +30,7 @@ PROP = dict(
     quick=dict(configs=['asan', 'rel', 'native'], cases=16000000, maxlen=80),
     thorough=dict(configs=['asan', 'rel', 'native'], cases=100000000, maxlen=80,
                   fuzz_s=60, setmax=1 << 23),
-    required_classes=['pair.equal', 'pair.adjacent', 'pair.straddle',
+    required_classes=['entry.quick-macros', 'pair.equal', 'pair.adjacent', 'pair.straddle',
                       'pair.onebyte', 'pair.independent', 'boundary.adjacent',
                       'lengths.1-2', 'lengths.2-3', 'lengths.3-4',
                       'lengths.4-5', 'lengths.5-6', 'lengths.6-7',
